@@ -7,7 +7,9 @@
      T1 fresh branch: ruiz_iter_inv / ruiz_iter_preserves / ruiz_iter_ok, loop lemmas,
         scale_establishes_inverse, scale_fresh_ok,
      T3 scaled_data_is_transform (fresh; invariant rz_inv over ruiz_loop), scale_reuse_is_transform,
-     T5 pc_reach / history_preserves_inverse / history_pairs_inverse / rescale_step. *)
+     T5 pc_reach / history_preserves_inverse / history_pairs_inverse / rescale_step,
+     sparse quirk: every result is for both values of the flag [sparse_quirk] of PrecondDense.v (variable sq);
+        sparse_quirk_only_changes_iteration_count (ruiz_iter_quirk_step, ruiz_loop_quirk). *)
 From PIQP Require Import Base Data PrecondDense.
 From RecordUpdate Require Import RecordSet.
 Import RecordSetNotations.
@@ -717,8 +719,8 @@ Proof.
   destruct (mul_gather _ _ _); cbn; reflexivity.
 Qed.
 
-Lemma scale_reuse_is_xform K pc d sc it :
-  ruiz_scale_data K pc d true sc it =
+Lemma scale_reuse_is_xform K sq pc d sc it :
+  ruiz_scale_data K sq pc d true sc it =
   do d' <- xform (pc_n pc) (pc_p pc) (d_nlb d) (d_nub d) (pc_c pc) (pc_delta pc)
                  (pc_delta_lb pc) (pc_delta_ub pc) (d_lb_idx d) (d_ub_idx d) d ;;
   Ok (pc <| pc_nlb := d_nlb d |> <| pc_nub := d_nub d |>, d').
@@ -955,10 +957,10 @@ Proof. intro H. rewrite Qcmult_comm. exact H. Qed.
 
 (* T2a: unscale_data followed by scale_data(reuse) restores the data (ALL fields, including the strict lower
    triangle of P -- it is multiplied by c_inv and then by c only -- and the whole box-scaling vectors) *)
-Theorem unscale_scale_id K pc d sc it :
+Theorem unscale_scale_id K sq pc d sc it :
   wf_data d -> wf_pc pc d -> pc_inverse pc -> pc_nlb pc = d_nlb d -> pc_nub pc = d_nub d ->
   exists d0, ruiz_unscale_data pc d = Ok d0 /\ wf_data d0 /\
-             ruiz_scale_data K pc d0 true sc it = Ok (pc, d).
+             ruiz_scale_data K sq pc d0 true sc it = Ok (pc, d).
 Proof.
   intros W (WL & En & Ep & Em) I Elb Eub.
   pose proof (wf_nlb_le d W) as Nlb. pose proof (wf_nub_le d W) as Nub.
@@ -993,9 +995,9 @@ Proof.
 Qed.
 
 (* T2b: scale_data(reuse) followed by unscale_data restores the data *)
-Theorem scale_unscale_id K pc d sc it :
+Theorem scale_unscale_id K sq pc d sc it :
   wf_data d -> wf_pc pc d -> pc_inverse pc ->
-  exists d', ruiz_scale_data K pc d true sc it = Ok (pc <| pc_nlb := d_nlb d |> <| pc_nub := d_nub d |>, d') /\
+  exists d', ruiz_scale_data K sq pc d true sc it = Ok (pc <| pc_nlb := d_nlb d |> <| pc_nub := d_nub d |>, d') /\
              wf_data d' /\
              ruiz_unscale_data (pc <| pc_nlb := d_nlb d |> <| pc_nub := d_nub d |>) d' = Ok d.
 Proof.
@@ -1029,6 +1031,7 @@ Qed.
 
 Section Fresh.
 Variable K : Consts.
+Variable sq : bool.   (* sparse_quirk of PrecondDense.v: every result below holds for both values *)
 Definition sane_consts : Prop := 0 < k_min_scaling K /\ k_min_scaling K <= 1 /\ 1 <= k_max_scaling K.
 Hypothesis SK : sane_consts.
 
@@ -1072,10 +1075,10 @@ Qed.
 
 (* explicit form of one iteration *)
 Lemma ruiz_iter_inv sc st st' :
-  ruiz_iter K sc st = Ok st' ->
+  ruiz_iter K sq sc st = Ok st' ->
   let d := rz_d st in let pc := rz_pc st in
   let n := d_n d in let p := d_p d in let nlb := d_nlb d in let nub := d_nub d in
-  exists (it_x2 it1 it_lb1 it_ub1 lbs1 ubs1 : Vec) (g : F) (P2 : Mat) (c2 : Vec),
+  exists (it_x2 it1 it_lb1 it_ub1 lbs1 ubs1 : Vec) (g : F) (P2 : Mat) (c2 it_lb_out : Vec),
     length it_x2 = n /\
     sqrt_inv (map (limit_scaling K) (it_x2 ++ map norm_inf (d_AT d) ++ map norm_inf (d_GT d))) = Ok it1 /\
     sqrt_inv (map (limit_scaling K) (set_head (head nlb (d_lb_scaling d)) (rz_it_lb st))) = Ok it_lb1 /\
@@ -1089,6 +1092,9 @@ Lemma ruiz_iter_inv sc st st' :
     length P2 = length P1 /\ (forall j, length (nth j P2 []) = length (nth j P1 [])) /\
     (forall i j, mentry P2 i j = g * mentry P1 i j) /\
     length c2 = length c1 /\ (forall i, nth i c2 0 = g * nth i c1 0) /\
+    (* the only place where the sparse quirk enters: what the next loop guard will read as delta_iter_lb *)
+    it_lb_out = (if sq && sc then map (fun k => qmax (P_col_head_norm P1 k) (P_row_tail_norm P1 k)) (seq 0 n)
+                 else it_lb1) /\
     st' = {| rz_d := mkData (d_n d) (d_p d) (d_m d) P2
                        (mscale_rc sx (segment n p it1) (d_AT d))
                        (mscale_rc sx (tail_from (n + p) it1) (d_GT d))
@@ -1098,7 +1104,7 @@ Lemma ruiz_iter_inv sc st st' :
                        (set_head (vmul (head nlb (pc_delta_lb pc)) (head nlb it_lb1)) (pc_delta_lb pc))
                        (set_head (vmul (head nub (pc_delta_ub pc)) (head nub it_ub1)) (pc_delta_ub pc))
                        (pc_c_inv pc) (pc_delta_inv pc) (pc_delta_lb_inv pc) (pc_delta_ub_inv pc);
-             rz_it := it1; rz_it_lb := it_lb1; rz_it_ub := it_ub1 |}.
+             rz_it := it1; rz_it_lb := it_lb_out; rz_it_ub := it_ub1 |}.
 Proof.
   intro H. unfold ruiz_iter in H. cbv zeta in H.
   destruct (scatter_max _ (d_lb_idx (rz_d st)) _) as [it_x1|] eqn:E1; cbn [bind] in H; [|discriminate].
@@ -1117,20 +1123,28 @@ Proof.
     exists it_x2, it1, it_lb1, it_ub1, lbs1, ubs1, g.
     exists (mscale g (scale_P_utri (head (d_n (rz_d st)) it1) (d_P (rz_d st)))).
     exists (vscale g (vmul (d_c (rz_d st)) (head (d_n (rz_d st)) it1))).
+    exists (if sq && true
+            then map (fun k => qmax (P_col_head_norm (scale_P_utri (head (d_n (rz_d st)) it1) (d_P (rz_d st))) k)
+                                    (P_row_tail_norm (scale_P_utri (head (d_n (rz_d st)) it1) (d_P (rz_d st))) k))
+                     (seq 0 (d_n (rz_d st)))
+            else it_lb1).
     repeat (split; [eassumption|]).
     split. { apply qinv_inv in E9. destruct E9 as [_ ->]. apply Qcdiv1_pos, limit_scaling_pos. }
     split; [apply length_mscale|]. split; [intro j; rewrite col_mscale; apply length_vscale|].
     split; [intros; apply mentry_mscale|]. split; [apply length_vscale|]. split; [intros; apply nth_vscale|].
+    split; [reflexivity|].
     inversion H. destruct (rz_d st), (rz_pc st); reflexivity.
   - cbn [bind] in H.
     exists it_x2, it1, it_lb1, it_ub1, lbs1, ubs1, 1.
     exists (scale_P_utri (head (d_n (rz_d st)) it1) (d_P (rz_d st))).
     exists (vmul (d_c (rz_d st)) (head (d_n (rz_d st)) it1)).
+    exists it_lb1.
     repeat (split; [eassumption|]).
     split; [apply Qc_0_lt_1|].
     split; [reflexivity|]. split; [reflexivity|]. split; [intros; qring|]. split; [reflexivity|].
     split; [intros; qring|].
-    inversion H. destruct (rz_d st), (rz_pc st); cbn. rewrite Qcmult_1_r. reflexivity.
+    split; [rewrite andb_false_r; reflexivity|].
+    inversion H. rewrite andb_false_r. destruct (rz_d st), (rz_pc st); cbn. rewrite Qcmult_1_r. reflexivity.
 Qed.
 
 
@@ -1222,12 +1236,12 @@ Proof.
 Qed.
 
 Lemma ruiz_iter_preserves d0 sc st st' :
-  rz_inv d0 st -> ruiz_iter K sc st = Ok st' -> rz_inv d0 st'.
+  rz_inv d0 st -> ruiz_iter K sq sc st = Ok st' -> rz_inv d0 st'.
 Proof.
   intros [W En Ep Em Ld Llb Lub PP T Hb Hh Hlbn Hub Hnlb Hnub] H.
   apply ruiz_iter_inv in H. cbv zeta in H.
   destruct H as (it_x2 & it1 & it_lb1 & it_ub1 & lbs1 & ubs1 & g & P2 & c2 &
-                 Lx & S1 & S2 & S3 & G1 & G2 & Hg & LP & CP & EP & Lc & Ec & ->).
+                 it_lb_out & Lx & S1 & S2 & S3 & G1 & G2 & Hg & LP & CP & EP & Lc & Ec & _ & ->).
   pose proof (wf_nlb_le _ W) as Nlb. pose proof (wf_nub_le _ W) as Nub.
   pose proof (incr_from_Forall _ _ _ (wfd_lbi _ W)) as Flb.
   pose proof (incr_from_Forall _ _ _ (wfd_ubi _ W)) as Fub.
@@ -1301,19 +1315,19 @@ Qed.
 
 
 Lemma ruiz_loop_preserves d0 sc fuel : forall st st',
-  rz_inv d0 st -> ruiz_loop K fuel sc st = Ok st' -> rz_inv d0 st'.
+  rz_inv d0 st -> ruiz_loop K sq fuel sc st = Ok st' -> rz_inv d0 st'.
 Proof.
   induction fuel as [|f IH]; intros st st' I H; cbn in H.
   - inversion H; subst; exact I.
   - destruct (ruiz_continue _ _ _ _ _ _).
-    + destruct (ruiz_iter K sc st) as [st1|] eqn:E; cbn in H; [|discriminate].
+    + destruct (ruiz_iter K sq sc st) as [st1|] eqn:E; cbn in H; [|discriminate].
       eapply IH; [|exact H]. eapply ruiz_iter_preserves; eauto.
     + inversion H; subst; exact I.
 Qed.
 
 (* progress: an iteration never fails (no division by zero, no index error), provided n >= 1 when the cost is scaled *)
 Lemma ruiz_iter_ok d0 sc st :
-  rz_inv d0 st -> (sc = false \/ (1 <= d_n d0)%nat) -> exists st', ruiz_iter K sc st = Ok st'.
+  rz_inv d0 st -> (sc = false \/ (1 <= d_n d0)%nat) -> exists st', ruiz_iter K sq sc st = Ok st'.
 Proof.
   intros [W En Ep Em Ld Llb Lub PP T Hb Hh Hlbn Hub Hnlb Hnub] Hn.
   pose proof (wf_nlb_le _ W) as Nlb. pose proof (wf_nub_le _ W) as Nub.
@@ -1358,7 +1372,7 @@ Proof.
 Qed.
 
 Lemma ruiz_loop_ok d0 sc fuel : forall st,
-  rz_inv d0 st -> (sc = false \/ (1 <= d_n d0)%nat) -> exists st', ruiz_loop K fuel sc st = Ok st'.
+  rz_inv d0 st -> (sc = false \/ (1 <= d_n d0)%nat) -> exists st', ruiz_loop K sq fuel sc st = Ok st'.
 Proof.
   induction fuel as [|f IH]; intros st I Hn; cbn.
   - eexists; reflexivity.
@@ -1390,16 +1404,18 @@ Definition pc_fresh (pc0 : Precond) (d : Data) : Precond :=
             1 (vconst (pc_n pc0 + pc_p pc0 + pc_m pc0) 1) (vconst (pc_n pc0) 1) (vconst (pc_n pc0) 1)
             (pc_c_inv pc0) (pc_delta_inv pc0) (pc_delta_lb_inv pc0) (pc_delta_ub_inv pc0).
 Definition st_fresh (pc0 : Precond) (d : Data) : ruiz_st :=
-  mkRz d (pc_fresh pc0 d) (vconst (pc_n pc0 + pc_p pc0 + pc_m pc0) 0) (vconst (pc_n pc0) 0) (vconst (pc_n pc0) 0).
+  mkRz d (pc_fresh pc0 d) (vconst (pc_n pc0 + pc_p pc0 + pc_m pc0) 0)
+       (if sq then pc_delta_lb_inv pc0 else vconst (pc_n pc0) 0)
+       (if sq then pc_delta_ub_inv pc0 else vconst (pc_n pc0) 0).
 
 Definition dims_agree (pc : Precond) (d : Data) : Prop :=
   pc_n pc = d_n d /\ pc_p pc = d_p d /\ pc_m pc = d_m d.
 
 (* explicit form of the result of the fresh branch *)
 Lemma scale_fresh_inv pc0 d sc it pc' d' :
-  ruiz_scale_data K pc0 d false sc it = Ok (pc', d') ->
+  ruiz_scale_data K sq pc0 d false sc it = Ok (pc', d') ->
   exists st ci di dlbi dubi,
-    ruiz_loop K (Z.to_nat it) sc (st_fresh pc0 d) = Ok st /\
+    ruiz_loop K sq (Z.to_nat it) sc (st_fresh pc0 d) = Ok st /\
     qinv (pc_c (rz_pc st)) = Ok ci /\ vinv (pc_delta (rz_pc st)) = Ok di /\
     vinv (pc_delta_lb (rz_pc st)) = Ok dlbi /\ vinv (pc_delta_ub (rz_pc st)) = Ok dubi /\
     let pc2 := rz_pc st in let d2 := rz_d st in
@@ -1414,7 +1430,7 @@ Lemma scale_fresh_inv pc0 d sc it pc' d' :
 Proof.
   unfold ruiz_scale_data. cbv zeta.
   replace (mkRz d _ _ _ _) with (st_fresh pc0 d) by (unfold st_fresh, pc_fresh; destruct pc0; reflexivity).
-  destruct (ruiz_loop K (Z.to_nat it) sc (st_fresh pc0 d)) as [st|] eqn:E; cbn [bind]; [|discriminate].
+  destruct (ruiz_loop K sq (Z.to_nat it) sc (st_fresh pc0 d)) as [st|] eqn:E; cbn [bind]; [|discriminate].
   destruct (qinv _) as [ci|] eqn:E1; cbn [bind]; [|discriminate].
   destruct (vinv (pc_delta _)) as [di|] eqn:E2; cbn [bind]; [|discriminate].
   destruct (vinv (pc_delta_lb _)) as [dlbi|] eqn:E3; cbn [bind]; [|discriminate].
@@ -1455,7 +1471,7 @@ Qed.
 (** ** T1: the fresh branch establishes the inverse invariant (on all slots) and well-formed outputs *)
 Theorem scale_establishes_inverse pc0 d0 sc it pc' d' :
   wf_data d0 -> dims_agree pc0 d0 ->
-  ruiz_scale_data K pc0 d0 false sc it = Ok (pc', d') ->
+  ruiz_scale_data K sq pc0 d0 false sc it = Ok (pc', d') ->
   pc_inverse pc' /\ wf_data d' /\ wf_pc pc' d' /\
   pc_nlb pc' = d_nlb d' /\ pc_nub pc' = d_nub d' /\
   d_lb_idx d' = d_lb_idx d0 /\ d_ub_idx d' = d_ub_idx d0.
@@ -1490,7 +1506,7 @@ Qed.
 (** ** T1 (progress): the fresh branch returns Ok -- no division by zero, no index/shape error *)
 Theorem scale_fresh_ok pc0 d0 sc it :
   wf_data d0 -> dims_agree pc0 d0 -> (sc = false \/ (1 <= d_n d0)%nat) ->
-  exists pc' d', ruiz_scale_data K pc0 d0 false sc it = Ok (pc', d').
+  exists pc' d', ruiz_scale_data K sq pc0 d0 false sc it = Ok (pc', d').
 Proof.
   intros W DA Hn.
   destruct (ruiz_loop_ok d0 sc (Z.to_nat it) _ (rz_inv_fresh pc0 d0 W DA) Hn) as [st HL].
@@ -1509,7 +1525,7 @@ Qed.
 (** ** T3: the freshly scaled data are the original data transformed by the scalings stored in pc' *)
 Theorem scaled_data_is_transform pc0 d0 sc it pc' d' :
   wf_data d0 -> dims_agree pc0 d0 ->
-  ruiz_scale_data K pc0 d0 false sc it = Ok (pc', d') ->
+  ruiz_scale_data K sq pc0 d0 false sc it = Ok (pc', d') ->
   is_transform (pc_c pc') (pc_delta pc') (pc_delta_lb pc') (pc_delta_ub pc') d0 d' /\
   bounds_transform (pc_delta pc') (pc_delta_lb pc') (pc_delta_ub pc') d0 d'.
 Proof.
@@ -1528,7 +1544,139 @@ Proof.
   - intros k Hk. rewrite nth_vmul, nth_head by lia. rewrite Hubb. qring.
 Qed.
 
+
+(* ---- the sparse quirk influences nothing but the loop guard ---- *)
+
+Lemma mapM_app {A B} (f : A -> res B) (a b : list A) r :
+  mapM f (a ++ b) = Ok r -> exists ra rb, mapM f a = Ok ra /\ mapM f b = Ok rb /\ r = ra ++ rb.
+Proof.
+  revert r; induction a as [|x a IH]; cbn; intros r H.
+  - exists [], r. repeat split; assumption.
+  - destruct (f x) as [y|]; cbn in *; [|discriminate].
+    destruct (mapM f (a ++ b)) as [r'|] eqn:E; cbn in H; [|discriminate]. inversion H; subst r.
+    destruct (IH r' eq_refl) as (ra & rb & Ha & Hb & ->). rewrite Ha; cbn.
+    exists (y :: ra), rb. repeat split; assumption.
+Qed.
+
+(* the head of delta_iter_lb after sqrt/inverse depends only on the head before *)
+Lemma head_sqrt_inv_set_head (w v r : Vec) :
+  sqrt_inv (map (limit_scaling K) (set_head w v)) = Ok r ->
+  exists ra, sqrt_inv (map (limit_scaling K) w) = Ok ra /\ head (length w) r = ra.
+Proof.
+  unfold set_head. rewrite map_app. intro H. apply mapM_app in H.
+  destruct H as (ra & rb & Ha & _ & ->). exists ra. split; [exact Ha|].
+  pose proof (Forall2_len _ _ _ (mapM_Forall2 _ _ _ Ha)) as L. rewrite map_length in L.
+  unfold head. rewrite L, firstn_app, Nat.sub_diag, firstn_all. cbn. apply app_nil_r.
+Qed.
+
+Lemma head_sqrt_inv_indep (w v v' r r' : Vec) k :
+  length w = k ->
+  sqrt_inv (map (limit_scaling K) (set_head w v)) = Ok r ->
+  sqrt_inv (map (limit_scaling K) (set_head w v')) = Ok r' ->
+  head k r' = head k r.
+Proof.
+  intros <- H H'. apply head_sqrt_inv_set_head in H. apply head_sqrt_inv_set_head in H'.
+  destruct H as (ra & Ha & ->). destruct H' as (ra' & Ha' & ->). congruence.
+Qed.
+
+(* two loop states are equivalent when they carry the same data and the same accumulated scalings
+   (the scratch vectors delta_iter, delta_iter_lb, delta_iter_ub may differ) *)
+Definition st_eqv (a b : ruiz_st) : Prop := rz_d a = rz_d b /\ rz_pc a = rz_pc b.
+
+(* one iteration, with or without the quirk, from equivalent states: equivalent results *)
+Lemma ruiz_iter_quirk_step d0 sc st1 st2 st1' :
+  rz_inv d0 st1 -> st_eqv st1 st2 -> ruiz_iter K sq sc st1 = Ok st1' ->
+  exists st2', ruiz_iter K false sc st2 = Ok st2' /\ st_eqv st1' st2'.
+Proof.
+  intros I [Ed Ep] H. destruct st1 as [d pc it a b], st2 as [d2 pc2 it2 a2 b2]; cbn in Ed, Ep; subst d2 pc2.
+  destruct I as [W _ _ _ _ _ _ _ _ _ _ _ _ _ _]. cbn in W.
+  pose proof (wf_nlb_le _ W) as Nlb. pose proof (wf_nub_le _ W) as Nub.
+  assert (Ll : length (head (d_nlb d) (d_lb_scaling d)) = d_nlb d) by (apply length_head; rewrite (wfd_lbs _ W); exact Nlb).
+  assert (Lu : length (head (d_nub d) (d_ub_scaling d)) = d_nub d) by (apply length_head; rewrite (wfd_ubs _ W); exact Nub).
+  unfold ruiz_iter in *. cbv zeta in *. cbn [rz_d rz_pc rz_it rz_it_lb rz_it_ub] in *.
+  destruct (scatter_max _ (d_lb_idx d) _) as [it_x1|]; cbn [bind] in *; [|discriminate].
+  destruct (scatter_max _ (d_ub_idx d) _) as [it_x2|]; cbn [bind] in *; [|discriminate].
+  destruct (sqrt_inv (map (limit_scaling K) (it_x2 ++ _))) as [it1|]; cbn [bind] in *; [|discriminate].
+  destruct (sqrt_inv (map (limit_scaling K) (set_head _ a))) as [r|] eqn:E4; cbn [bind] in H; [|discriminate].
+  destruct (sqrt_inv (map (limit_scaling K) (set_head _ b))) as [u|] eqn:E5; cbn [bind] in H; [|discriminate].
+  destruct (sqrt_inv_limit_ok (set_head (head (d_nlb d) (d_lb_scaling d)) a2)) as [r2 E4'].
+  destruct (sqrt_inv_limit_ok (set_head (head (d_nub d) (d_ub_scaling d)) b2)) as [u2 E5'].
+  rewrite E4'; cbn [bind]. rewrite E5'; cbn [bind].
+  rewrite (head_sqrt_inv_indep _ _ _ _ _ _ Ll E4 E4').
+  rewrite (head_sqrt_inv_indep _ _ _ _ _ _ Lu E5 E5').
+  destruct (mul_gather _ it1 (d_lb_idx d)) as [lbs1|]; cbn [bind] in *; [|discriminate].
+  destruct (mul_gather _ it1 (d_ub_idx d)) as [ubs1|]; cbn [bind] in *; [|discriminate].
+  destruct sc.
+  - destruct (qdiv _ (qofnat _)) as [g1|]; cbn [bind] in *; [|discriminate].
+    destruct (qinv _) as [g|]; cbn [bind] in *; [|discriminate].
+    inversion H; subst st1'. eexists; split; [reflexivity|]. split; reflexivity.
+  - cbn [bind] in *. inversion H; subst st1'. eexists; split; [reflexivity|]. split; reflexivity.
+Qed.
+
+(* k iterations of the DENSE step, without looking at the guard *)
+Fixpoint ruiz_iterate (sc : bool) (k : nat) (st : ruiz_st) : res ruiz_st :=
+  match k with
+  | O => Ok st
+  | S k' => do st' <- ruiz_iter K false sc st ;; ruiz_iterate sc k' st'
+  end.
+
+Lemma rz_inv_eqv d0 st1 st2 : st_eqv st1 st2 -> rz_inv d0 st1 -> rz_inv d0 st2.
+Proof. intros [Ed Ep] I. destruct I. constructor; rewrite <- ?Ed, <- ?Ep; assumption. Qed.
+
+Lemma ruiz_loop_quirk d0 sc fuel : forall st1 st2 st1',
+  rz_inv d0 st1 -> st_eqv st1 st2 -> ruiz_loop K sq fuel sc st1 = Ok st1' ->
+  exists k st2', (k <= fuel)%nat /\ ruiz_iterate sc k st2 = Ok st2' /\ st_eqv st1' st2'.
+Proof.
+  induction fuel as [|f IH]; intros st1 st2 st1' I E H; cbn in H.
+  - inversion H; subst. exists 0%nat, st2. repeat split; auto; apply E.
+  - destruct (ruiz_continue _ _ _ _ _ _).
+    + destruct (ruiz_iter K sq sc st1) as [st1a|] eqn:E1; cbn in H; [|discriminate].
+      destruct (ruiz_iter_quirk_step d0 sc st1 st2 st1a I E E1) as (st2a & E2 & Ea).
+      destruct (IH st1a st2a st1' (ruiz_iter_preserves d0 sc st1 st1a I E1) Ea H) as (k & st2' & Hk & Hi & He).
+      exists (S k), st2'. split; [lia|]. split; [|exact He]. cbn. rewrite E2. exact Hi.
+    + inversion H; subst. exists 0%nat, st2. repeat split; auto with arith; apply E.
+Qed.
+
+(* the part of the fresh branch after the loop *)
+Definition ruiz_finish (st : ruiz_st) : res (Precond * Data) :=
+  let pc2 := rz_pc st in
+  do ci <- qinv (pc_c pc2) ;;
+  do di <- vinv (pc_delta pc2) ;;
+  do dlbi <- vinv (pc_delta_lb pc2) ;;
+  do dubi <- vinv (pc_delta_ub pc2) ;;
+  let pc3 := pc2 <| pc_c_inv := ci |> <| pc_delta_inv := di |> <| pc_delta_lb_inv := dlbi |> <| pc_delta_ub_inv := dubi |> in
+  Ok (pc3, scale_bounds pc3 (rz_d st)).
+
+Lemma ruiz_finish_eqv st1 st2 : st_eqv st1 st2 -> ruiz_finish st1 = ruiz_finish st2.
+Proof. intros [Ed Ep]. unfold ruiz_finish. rewrite Ed, Ep. reflexivity. Qed.
+
+Lemma scale_fresh_is_loop_finish pc0 d sc it :
+  ruiz_scale_data K sq pc0 d false sc it =
+  do st <- ruiz_loop K sq (Z.to_nat it) sc (st_fresh pc0 d) ;; ruiz_finish st.
+Proof.
+  unfold ruiz_scale_data. cbv zeta.
+  replace (mkRz d _ _ _ _) with (st_fresh pc0 d) by (unfold st_fresh, pc_fresh; destruct pc0; reflexivity).
+  reflexivity.
+Qed.
+
 End Fresh.
+
+(** ** the sparse quirk only changes the iteration count: whatever the flag, the result of a fresh scale_data is the
+       result of the DENSE iteration run for exactly k <= max_it iterations (k chosen by the respective loop guard)
+       followed by the common final part; in particular pc_inverse / is_transform hold regardless *)
+Theorem sparse_quirk_only_changes_iteration_count K sq pc0 d sc it pc' d' :
+  sane_consts K -> wf_data d -> dims_agree pc0 d ->
+  ruiz_scale_data K sq pc0 d false sc it = Ok (pc', d') ->
+  exists k st, (k <= Z.to_nat it)%nat /\
+               ruiz_iterate K sc k (st_fresh false pc0 d) = Ok st /\ ruiz_finish st = Ok (pc', d').
+Proof.
+  intros SK W DA H. rewrite scale_fresh_is_loop_finish in H.
+  destruct (ruiz_loop K sq (Z.to_nat it) sc (st_fresh sq pc0 d)) as [st1|] eqn:E; cbn [bind] in H; [|discriminate].
+  assert (Eq : st_eqv (st_fresh sq pc0 d) (st_fresh false pc0 d)) by (split; reflexivity).
+  destruct (ruiz_loop_quirk K sq SK d sc _ _ _ _ (rz_inv_fresh sq pc0 d W DA) Eq E) as (k & st2 & Hk & Hi & He).
+  exists k, st2. split; [exact Hk|]. split; [exact Hi|]. rewrite <- (ruiz_finish_eqv _ _ He). exact H.
+Qed.
+
 
 (* ================================================================== *)
 (** * T5. any history of re-scalings preserves the inverse invariant    *)
@@ -1547,13 +1695,13 @@ Proof.
   - split; [|cbn; auto]. constructor; cbn; rewrite ?length_vconst; auto.
 Qed.
 
-Lemma scale_reuse_preserves K pc d sc it pc' d' :
+Lemma scale_reuse_preserves K sq pc d sc it pc' d' :
   wf_data d -> wf_pc pc d -> pc_inverse pc ->
-  ruiz_scale_data K pc d true sc it = Ok (pc', d') ->
+  ruiz_scale_data K sq pc d true sc it = Ok (pc', d') ->
   pc_inverse pc' /\ wf_pc pc' d' /\ wf_data d' /\ pc_nlb pc' = d_nlb d' /\ pc_nub pc' = d_nub d'.
 Proof.
   intros W WP I H.
-  destruct (scale_unscale_id K pc d sc it W WP I) as (d1 & E & W1 & _).
+  destruct (scale_unscale_id K sq pc d sc it W WP I) as (d1 & E & W1 & _).
   rewrite E in H. inversion H; subst pc' d'; clear H.
   rewrite scale_reuse_is_xform in E.
   destruct (xform _ _ _ _ _ _ _ _ _ _ d) as [d2|] eqn:X; cbn in E; [|discriminate].
@@ -1573,22 +1721,22 @@ Variable K : Consts.
 Hypothesis SK : sane_consts K.
 
 (* the preconditioner states reachable by: init, then any number of scale_data calls (fresh or reuse, any
-   scale_cost, any iteration count) on ARBITRARY well-formed data of the same dimensions -- in particular on
+   scale_cost, any iteration count, dense code or sparse quirk) on ARBITRARY well-formed data of the same dimensions -- in particular on
    data obtained by unscale_data followed by a change of the finite-bound index lists (growth included). *)
 Inductive pc_reach : Precond -> Prop :=
 | reach_init ident d : wf_data d -> pc_reach (precond_init ident d)
-| reach_scale pc d reuse sc it pc' d' :
+| reach_scale pc d sq reuse sc it pc' d' :
     pc_reach pc -> wf_data d -> dims_agree pc d ->
-    ruiz_scale_data K pc d reuse sc it = Ok (pc', d') -> pc_reach pc'.
+    ruiz_scale_data K sq pc d reuse sc it = Ok (pc', d') -> pc_reach pc'.
 
 Theorem history_preserves_inverse pc : pc_reach pc -> pc_inverse pc /\ wf_pc_len pc.
 Proof.
-  induction 1 as [ident d W|pc d reuse sc it pc' d' R [I WL] W DA H].
+  induction 1 as [ident d W|pc d sq reuse sc it pc' d' R [I WL] W DA H].
   - destruct (pc_inverse_init ident d W) as [I [WL _]]. split; assumption.
   - destruct reuse.
-    + destruct (scale_reuse_preserves K pc d sc it pc' d' W (conj WL DA) I H) as (I' & [WL' _] & _).
+    + destruct (scale_reuse_preserves K sq pc d sc it pc' d' W (conj WL DA) I H) as (I' & [WL' _] & _).
       split; assumption.
-    + destruct (scale_establishes_inverse K SK pc d sc it pc' d' W DA H) as (I' & _ & [WL' _] & _).
+    + destruct (scale_establishes_inverse K sq SK pc d sc it pc' d' W DA H) as (I' & _ & [WL' _] & _).
       split; assumption.
 Qed.
 
@@ -1643,9 +1791,9 @@ Proof.
 Qed.
 
 (** ** T3 for the reuse branch: the re-scaled data are the input data transformed by the stored scalings *)
-Theorem scale_reuse_is_transform K pc d sc it pc' d' :
+Theorem scale_reuse_is_transform K sq pc d sc it pc' d' :
   wf_data d -> wf_pc pc d ->
-  ruiz_scale_data K pc d true sc it = Ok (pc', d') ->
+  ruiz_scale_data K sq pc d true sc it = Ok (pc', d') ->
   is_transform (pc_c pc') (pc_delta pc') (pc_delta_lb pc') (pc_delta_ub pc') d d' /\
   bounds_transform (pc_delta pc') (pc_delta_lb pc') (pc_delta_ub pc') d d'.
 Proof.
@@ -1692,36 +1840,36 @@ Theorem rescale_step K pc d :
   sane_consts K ->
   wf_data d -> wf_pc pc d -> pc_inverse pc -> pc_nlb pc = d_nlb d -> pc_nub pc = d_nub d ->
   exists d0, ruiz_unscale_data pc d = Ok d0 /\ wf_data d0 /\
-   (forall sc it, ruiz_scale_data K pc d0 true sc it = Ok (pc, d)) /\
-   forall d1 reuse sc it, wf_data d1 -> dims_agree pc d1 ->
+   (forall sq sc it, ruiz_scale_data K sq pc d0 true sc it = Ok (pc, d)) /\
+   forall d1 sq reuse sc it, wf_data d1 -> dims_agree pc d1 ->
      (reuse = true \/ sc = false \/ (1 <= d_n d1)%nat) ->
-     exists pc' d', ruiz_scale_data K pc d1 reuse sc it = Ok (pc', d') /\
+     exists pc' d', ruiz_scale_data K sq pc d1 reuse sc it = Ok (pc', d') /\
        pc_inverse pc' /\ wf_data d' /\ wf_pc pc' d' /\ pc_nlb pc' = d_nlb d' /\ pc_nub pc' = d_nub d' /\
        is_transform (pc_c pc') (pc_delta pc') (pc_delta_lb pc') (pc_delta_ub pc') d1 d' /\
        bounds_transform (pc_delta pc') (pc_delta_lb pc') (pc_delta_ub pc') d1 d'.
 Proof.
   intros SK W WP I Elb Eub.
-  destruct (unscale_scale_id K pc d false 0%Z W WP I Elb Eub) as (d0 & E0 & W0 & _).
+  destruct (unscale_scale_id K false pc d false 0%Z W WP I Elb Eub) as (d0 & E0 & W0 & _).
   exists d0. split; [exact E0|]. split; [exact W0|]. split.
-  - intros sc it. destruct (unscale_scale_id K pc d sc it W WP I Elb Eub) as (d0' & E0' & _ & R).
+  - intros sq sc it. destruct (unscale_scale_id K sq pc d sc it W WP I Elb Eub) as (d0' & E0' & _ & R).
     rewrite E0 in E0'. inversion E0'; subst d0'. exact R.
-  - intros d1 reuse sc it W1 DA Hn. destruct reuse.
+  - intros d1 sq reuse sc it W1 DA Hn. destruct reuse.
     + assert (WP1 : wf_pc pc d1) by (split; [apply WP|exact DA]).
-      destruct (scale_unscale_id K pc d1 sc it W1 WP1 I) as (d' & E & _ & _).
+      destruct (scale_unscale_id K sq pc d1 sc it W1 WP1 I) as (d' & E & _ & _).
       eexists; exists d'. split; [exact E|].
-      destruct (scale_reuse_preserves K pc d1 sc it _ d' W1 WP1 I E) as (A & B & C & D1 & D2).
-      destruct (scale_reuse_is_transform K pc d1 sc it _ d' W1 WP1 E) as (T1 & T2).
+      destruct (scale_reuse_preserves K sq pc d1 sc it _ d' W1 WP1 I E) as (A & B & C & D1 & D2).
+      destruct (scale_reuse_is_transform K sq pc d1 sc it _ d' W1 WP1 E) as (T1 & T2).
       exact (conj A (conj C (conj B (conj D1 (conj D2 (conj T1 T2)))))).
-    + destruct (scale_fresh_ok K SK pc d1 sc it W1 DA) as (pc' & d' & E).
+    + destruct (scale_fresh_ok K sq SK pc d1 sc it W1 DA) as (pc' & d' & E).
       { destruct Hn as [Hn|Hn]; [discriminate|exact Hn]. }
       exists pc', d'. split; [exact E|].
-      destruct (scale_establishes_inverse K SK pc d1 sc it pc' d' W1 DA E) as (A & B & C & D1 & D2 & _).
-      destruct (scaled_data_is_transform K SK pc d1 sc it pc' d' W1 DA E) as (T1 & T2).
+      destruct (scale_establishes_inverse K sq SK pc d1 sc it pc' d' W1 DA E) as (A & B & C & D1 & D2 & _).
+      destruct (scaled_data_is_transform K sq SK pc d1 sc it pc' d' W1 DA E) as (T1 & T2).
       exact (conj A (conj B (conj C (conj D1 (conj D2 (conj T1 T2)))))).
 Qed.
 
 (* the IdentityPreconditioner wrappers *)
-Theorem identity_precond_roundtrip K pc d reuse sc it :
+Theorem identity_precond_roundtrip K sq pc d reuse sc it :
   pc_ident pc = true ->
-  scale_data K pc d reuse sc it = Ok (pc <| pc_nlb := d_nlb d |> <| pc_nub := d_nub d |>, d) /\ unscale_data pc d = Ok d.
+  scale_data K sq pc d reuse sc it = Ok (pc <| pc_nlb := d_nlb d |> <| pc_nub := d_nub d |>, d) /\ unscale_data pc d = Ok d.
 Proof. intro H. unfold scale_data, unscale_data. rewrite H. split; reflexivity. Qed.
